@@ -4,7 +4,7 @@ from .common import *
 
 ID = "C14"
 PROPS_FILES = ["Props/C14"]
-FRAGMENTS = []
+FRAGMENTS = ["stroker-fields"]
 TRUSTED = [
     "Coq 8.16.1 kernel (coqc, vm_compute); no native_compute",
     "Flocq 4.1.0 IEEE754.BinarySingleNaN as the definition of binary32/binary64 arithmetic",
@@ -48,14 +48,14 @@ def rand_f(rng, bad):
 def rand_ops(rng, n, bad, depth=0):
     out = []
     for _ in range(n):
-        k = rng.choice([0, 0, 1, 1, 1, 2, 3, 4, 4, 5, 6, 7, 8, 9, 10] if depth == 0 else [0, 1, 1, 2, 3, 4, 5])
+        k = rng.choice([0, 0, 1, 1, 1, 2, 3, 4, 4, 5, 6, 7, 8, 9, 10, 11] if depth == 0 else [0, 1, 1, 2, 3, 4, 5])
         if k == 0 or k == 1:
             out += [k, rand_f(rng, bad), rand_f(rng, bad)]
         elif k == 2:
             out += [2] + [rand_f(rng, bad) for _ in range(4)]
         elif k == 3:
             out += [3] + [rand_f(rng, bad) for _ in range(6)]
-        elif k == 4 or k == 9 or k == 10:
+        elif k == 4 or k == 9 or k == 10 or k == 11:
             if k != 4 and rng.random() < 0.6:
                 k = 4
             out += [k]
@@ -97,6 +97,13 @@ def gen_cases(rng, tier):
             pass
         for seq in itertools.product(range(len(alpha)), repeat=n):
             args = []
+            for i in seq:
+                args += alpha[i]
+            cases.append(("c14_builder", args))
+    # the same sequences on a builder obtained from PathBuilder::default()
+    for n in range(1, 4):
+        for seq in itertools.product(range(len(alpha)), repeat=n):
+            args = [11]
             for i in seq:
                 args += alpha[i]
             cases.append(("c14_builder", args))
